@@ -639,6 +639,7 @@ func init() {
 			}
 			items = append(items, Item{Name: "records-through-tagged-front-ends", MaxDevs: -1, Run: c16RecordsScenario})
 			items = append(items, Item{Name: "operands-from-a-caller-owned-list", MaxDevs: -1, Run: c16OperandListScenario})
+			items = append(items, Item{Name: "names-that-are-not-keys", MaxDevs: -1, Run: c16ForeignNamesScenario})
 			return items
 		},
 	})
